@@ -84,6 +84,10 @@ DrFor(s) == IF \E k \in {"itemsArray", "additionalItems", "depSchemas", "depStri
 VerdDr(s, dr) == [i \in DOMAIN RTInsts |-> IF Ev(Single(s), dr, Addr(1, <<>>), RTInsts[i], <<>>).ok THEN "T" ELSE "F"]
 Verd(s) == VerdDr(s, DrFor(s))
 SingleU(uri, s) == [docs |-> <<[uri |-> uri, s |-> s]>>]
+\* a case may bring Loader documents along (field rem)
+RemOf(c) == IF "rem" \in DOMAIN c THEN c.rem ELSE <<>>
+UnivOf(c, s) == [docs |-> <<[uri |-> c.uri, s |-> s]>> \o RemOf(c)]
+VerdC(c, s) == [i \in DOMAIN RTInsts |-> IF Ev(UnivOf(c, s), "2020", Addr(1, <<>>), RTInsts[i], <<>>).ok THEN "T" ELSE "F"]
 VerdU(uri, s) == [i \in DOMAIN RTInsts |-> IF Ev(SingleU(uri, s), "2020", Addr(1, <<>>), RTInsts[i], <<>>).ok THEN "T" ELSE "F"]
 KeysOf(s) == IF "bool" \in DOMAIN s THEN {} ELSE Emitted(s)
 
@@ -148,6 +152,16 @@ DKVendored == [vendored |-> [id |-> IdOf(URI("http", "h2", TRUE, <<"item.json">>
                              properties |-> [a |-> [ref |-> LocalRef(FragPtr(<<SegN("defs", "name")>>))]]]]
 DKVendorCases == {[base |-> DKVendor(EmptyFcn), s |-> DKVendor(DKVendored), raw |-> FALSE, uri |-> DKChainURI],
                   [base |-> DKVendor(EmptyFcn), s |-> DKVendor(EmptyFcn), raw |-> FALSE, uri |-> DKChainURI]}
+\* the evaluated-properties bookkeeping a Loader document relies on does not depend on what the ROOT document
+\* happens to contain: root = a bare $ref to item.json (allOf + properties + unevaluatedProperties: false)
+DKItemDoc == [uri |-> URI("http", "h1", TRUE, <<"item.json">>),
+              s |-> [allOf |-> <<[properties |-> [a |-> IntS]]>>, properties |-> [b |-> TrueS], unevaluatedProperties |-> FalseS]]
+DKRemoteRoot(deco) == [ref |-> Ref(RelRef(<<"item.json">>), FragNone)] @@ deco
+DKRemoteDecos == DKDecos \cup DKRaw
+                 \cup {[defs |-> [unused |-> [unevaluatedItems |-> FalseS]]], [definitions |-> [unused |-> [unevaluatedProperties |-> TrueS]]],
+                       [contentSchema |-> [unevaluatedProperties |-> FalseS]], [defs |-> [unused |-> [properties |-> [zz |-> [unevaluatedItems |-> TrueS]]]]]}
+DKRemoteCases == {[base |-> DKRemoteRoot(EmptyFcn), s |-> DKRemoteRoot(d), raw |-> ("rawkeys" \in DOMAIN d), uri |-> DKChainURI, rem |-> <<DKItemDoc>>]
+                    : d \in DKRemoteDecos \cup {EmptyFcn}}
 DKOk(c) == c.s # c.base
 
 \* ------------------------------------------------------------ RD: documents (C05, other direction)
@@ -216,7 +230,7 @@ Cases == CASE Family = "PO" -> POCases
            [] Family = "DK" -> {c \in DKCases \cup DKChainCases : DKOk(c)}
                                \cup {[base |-> b, s |-> b, raw |-> FALSE, uri |-> EmptyURI] : b \in DKBases}
                                \cup {[base |-> DKChain(EmptyFcn), s |-> DKChain(EmptyFcn), raw |-> FALSE, uri |-> DKChainURI]}
-                               \cup DKVendorCases
+                               \cup DKVendorCases \cup DKRemoteCases
 
 Init == cs \in Cases /\ phase = "new"
 Next == phase = "new" /\ phase' = "done" /\ cs' = cs
@@ -246,7 +260,7 @@ KeepsKeywords ==
 \* a keyword only if it is exactly the keyword
 DecorationInert ==
   (Family = "DK" /\ phase = "done") =>
-     /\ VerdU(cs.uri, cs.s) = VerdU(cs.uri, cs.base)
+     /\ VerdC(cs, cs.s) = VerdC(cs, cs.base)
      /\ \A p \in AllPaths(cs.s) : "rawkeys" \in DOMAIN NodeAtS(cs.s, p) =>
            \A i \in DOMAIN NodeAtS(cs.s, p).rawkeys :
               LET k == NodeAtS(cs.s, p).rawkeys[i].k
@@ -258,7 +272,7 @@ Emit ==
       CASE Family = "PO" -> cs
         [] Family = "RD" -> cs
         [] Family = "RT" -> [s |-> cs.s, dr |-> DrFor(cs.s), exp |-> Verd(cs.s), keys |-> SetToSeq(KeysOf(cs.s))]
-        [] Family = "DK" -> [u |-> SingleU(cs.uri, cs.s), base |-> cs.base, exp |-> VerdU(cs.uri, cs.base), dr |-> "2020"])>>)
+        [] Family = "DK" -> [u |-> UnivOf(cs, cs.s), base |-> cs.base, exp |-> VerdC(cs, cs.base), dr |-> "2020"])>>)
 
 ASSUME Family \in {"RT", "DK"} => PrintT(<<"INSTS", ToJson(RTInsts)>>)
 ====
